@@ -1933,6 +1933,14 @@ func (r stack) defaultAssertionHandler(x any) (str string) {
 	} else if Xc, _ := conditionTypeAliasConverter(x); Xc.IsInit() {
 		str = Xc.String()
 
+	} else if _, isS := stackTypeAliasConverter(x); isS {
+		// an uninitialized Stack contributes nothing
+		str = ``
+
+	} else if _, isC := conditionTypeAliasConverter(x); isC {
+		// an uninitialized Condition contributes nothing
+		str = ``
+
 	} else if meth := getStringer(x); meth != nil {
 		// whatever it is, it seems to have
 		// a stringer method, at least. If the
